@@ -25,7 +25,7 @@ cdf_wiring      `model.cdf`, `marginal_pdf`, `marginal_cdf` hand scipy.integrate
 cdf_value       the integral of the joint pdf over the lower-left orthant (fine vectorised rule) equals the fraction of
                 a 200000-row `draw_sample` in that orthant: Hoeffding bound at 1e-12 (8.4e-3) + 5e-3 quadrature.
 native          2-D models only: the real, unpatched `cdf`, `marginal_pdf`, `marginal_cdf` (scipy nquad, ~2-4 s per
-                point) agree with the fine vectorised rule: 2e-3 absolute + 2e-3 relative.
+                point) agree with the fine vectorised rule: 5e-4 absolute + 5e-4 relative (observed: <= 4e-6).
 marginal_exact  unconditional variable: marginal_pdf/cdf/icdf ARE the distribution's pdf/cdf/icdf (exact) and
                 cdf(icdf(p)) = p (1e-9).
 marginal_consistency  conditional variable: marginal_cdf(x) = integral_0^x marginal_pdf (both as integrals of the joint
@@ -482,7 +482,7 @@ def _eval_native(inputs):
               "marginal_pdf": "marginal_pdf agrees with the joint density (integral over the other variables)",
               "marginal_cdf": "marginal_cdf agrees with the joint density"}[call]
     for g, r, x in zip(got, ref, pts):
-        out.append((f"{name}/native_{call}", clause, abs(g - r) <= 2e-3 + 2e-3 * abs(r), f"at {x}: library {float(g)!r} vs vectorised quadrature of the joint pdf {float(r)!r}"))
+        out.append((f"{name}/native_{call}", clause, abs(g - r) <= 5e-4 + 5e-4 * abs(r), f"at {x}: library {float(g)!r} vs vectorised quadrature of the joint pdf {float(r)!r}"))
     if len(got) != len(ref):
         out.append((f"{name}/native_{call}", clause, False, f"{len(got)} values for {len(ref)} points"))
     return out
@@ -506,12 +506,16 @@ def _native_tasks(seed, thorough):
     two_d = ["2d_cond", "2d_cond_b"] + (["2d_indep"] if thorough else [])
     for k, name in enumerate(two_d):
         s = seed + k
-        t.append({"kind": "native", "name": name, "call": "cdf", "seed": s, "quantiles": [[0.5, 0.5], [0.95, 0.3]] if thorough or k == 0 else [[0.9, 0.4]], "form": "array"})
-        t.append({"kind": "native", "name": name, "call": "cdf", "seed": s, "quantiles": [[0.3, 0.8]], "form": "row" if k % 2 == 0 else "list"})
+        full = thorough or k == 0
+        t.append({"kind": "native", "name": name, "call": "cdf", "seed": s, "quantiles": [[0.5, 0.5], [0.95, 0.3]] if full else [[0.9, 0.4]], "form": "array" if full else "list"})
+        if full:
+            t.append({"kind": "native", "name": name, "call": "cdf", "seed": s, "quantiles": [[0.3, 0.8]], "form": "row"})
+        if thorough:
+            t.append({"kind": "native", "name": name, "call": "cdf", "seed": s, "quantiles": [[0.999, 0.99], [0.01, 0.5]], "form": "list"})
         if name != "2d_indep":
             t.append({"kind": "native", "name": name, "call": "marginal_pdf", "seed": s, "dim": 1, "quantiles": [0.001, 0.1, 0.5, 0.9, 0.999]})
-            t.append({"kind": "native", "name": name, "call": "marginal_cdf", "seed": s, "dim": 1, "quantiles": [0.02, 0.5, 0.98] if thorough else [0.1, 0.9]})
-            t.append({"kind": "native", "name": name, "call": "roundtrip", "seed": s, "dim": 1, "p": [0.05, 0.5] if not thorough else [0.001, 0.05, 0.5, 0.999]})
+            t.append({"kind": "native", "name": name, "call": "marginal_cdf", "seed": s, "dim": 1, "quantiles": [0.02, 0.5, 0.98] if thorough else ([0.1, 0.9] if full else [0.6])})
+            t.append({"kind": "native", "name": name, "call": "roundtrip", "seed": s, "dim": 1, "p": [0.001, 0.05, 0.5, 0.999] if thorough else ([0.05, 0.5] if full else [0.9])})
     if thorough:
         t.append({"kind": "native", "name": "3d_chain", "call": "marginal_pdf", "seed": seed, "dim": 2, "quantiles": [0.5]})
         t.append({"kind": "native", "name": "3d_fork", "call": "marginal_pdf", "seed": seed, "dim": 1, "quantiles": [0.5]})
